@@ -148,6 +148,7 @@ fn build_compare_op(
                     }
                     #[allow(clippy::double_parens)]
                     #[allow(unused_parens)]
+                    #[allow(non_snake_case)]
                     impl #impl_g __AssertFieldsEq for #this_ty #wheres {
                         fn _f(this: &Self) {
                             #body
